@@ -1,1 +1,60 @@
-(* placeholder *)
+(* Properties/C15.v -- Signer, filesystem and reader failures surface as errors,
+   never as success. Theorems only, for every input and every environment. *)
+From Coq Require Import Bool List NArith Lia.
+From Coq.Strings Require Import Byte.
+From GoUefi Require Import Base.Bytes Base.Outcome Base.Reader Base.Prog Model.Util Model.VarIO Model.Faults
+  Proofs.VarIOProofs Proofs.FaultProofs Generated.Sites Proofs.SitesProofs.
+Import ListNotations.
+Local Open Scope N_scope.
+
+(* signer: an error, and nothing else is called *)
+Theorem C15_sign_fault : forall A e digest (finish : bytes -> A),
+  run (fail_at 0 e) (sign_prog digest finish) 0 = (Err 1, [CSign digest]).
+Proof. intros. apply sign_fault. Qed.
+(* a failed image signing leaves the image object without a new signature *)
+Theorem C15_pe_sign_atomic : forall S e (st : S) digest append finish,
+  run (fail_at 0 e) (pe_sign_prog st digest append finish) 0 = ((Err 1, st), [CSign digest]).
+Proof. intros. apply pe_sign_fault. Qed.
+(* a failed signed update writes nothing *)
+Theorem C15_signed_update_writes_nothing : forall e digest finish dir name g attrs,
+  run (fail_at 0 e) (signed_update_prog digest finish dir name g attrs) 0 = (Err 1, [CSign digest]).
+Proof. intros. apply signed_update_sign_fault. Qed.
+(* the signing path of the library contains no process-termination site (regenerated from the source) *)
+Theorem C15_sign_no_termination_site : sign_path_has_site = false.
+Proof. exact sign_path_no_site. Qed.
+
+(* file system, writing: open / write / close failing => error, then only Close *)
+Theorem C15_write_fault : forall dir name g attrs value k, (k < 3)%nat ->
+  exists e t, run (fail_at k env_ok) (write_var dir name g attrs value) 0 = (Err e, t) /\
+              forallb is_close (skipn (S k) t) = true.
+Proof. exact write_fault. Qed.
+Theorem C15_write_short : forall dir name g attrs value,
+  exists e t, run (short_at 1 env_ok) (write_var dir name g attrs value) 0 = (Err e, t) /\
+              forallb is_close (skipn 2 t) = true.
+Proof. exact write_short. Qed.
+Theorem C15_signed_update_fs_fault : forall sig digest finish dir name g attrs k, (1 <= k <= 3)%nat ->
+  let e : env := fun i c => match c with CWrite b => ROk (blen b) [] | _ => ROk 0 sig end in
+  exists err t, run (fail_at k e) (signed_update_prog digest finish dir name g attrs) 0 = (Err err, t) /\
+                forallb is_close (skipn (S k) t) = true.
+Proof. exact signed_update_fs_fault. Qed.
+
+(* file system, reading: open / stat / read / read / close failing => error *)
+Theorem C15_read_fault : forall path required size a v k, (k <= 4)%nat -> size <> 8 ->
+  exists err t, run (fail_at k (env_read size a v)) (read_var_prog path required) 0 = (Err err, t) /\
+                forallb is_close (skipn (S k) t) = true.
+Proof. exact read_fault. Qed.
+
+(* image reader: whichever read fails, the operation ends in an error at once *)
+Theorem C15_reader_fault : forall A n (cont : prog (outcome A)) k i, (k < n)%nat ->
+  exists t, run (fail_at (i + k) env_all_ok) (reads_prog n cont) i = (Err 1, t) /\ length t = S k.
+Proof. intros A n cont. exact (reads_fault n cont). Qed.
+
+Print Assumptions C15_sign_fault.
+Print Assumptions C15_pe_sign_atomic.
+Print Assumptions C15_signed_update_writes_nothing.
+Print Assumptions C15_sign_no_termination_site.
+Print Assumptions C15_write_fault.
+Print Assumptions C15_write_short.
+Print Assumptions C15_signed_update_fs_fault.
+Print Assumptions C15_read_fault.
+Print Assumptions C15_reader_fault.
